@@ -25,11 +25,15 @@ Row == [top |-> top, far |-> far, entries |-> entries, shape |-> shape, out |-> 
         per |-> [i \in DOMAIN entries |-> ExpRow(i)],
         nobatch |-> BatchDisabled, processed |-> PureProcessed, topcode |-> PureTopCode]
 
+fullview == <<view, want>>
+
 (* ---- exhaustive table ---- *)
 TableInit == Init /\ want = 0
 TableNext ==
   /\ Next /\ want' = want
   /\ (phase # "done" /\ phase' = "done") => PrintT(ToJson(Row'))
+
+TableNextQuiet == Next /\ want' = want
 
 (* ---- simulation ---- *)
 Pick(s) == s[RandomElement(1..Len(s))]
